@@ -63,7 +63,17 @@ def run_pools(profile, rec, known, n_examples, hseed):
     progcheck.setup_process()
 
     def check(case):
-        out = W.run_pool_case(case)
+        from ..common import Inconclusive
+        try:
+            out = W.run_pool_case(case)
+        except Inconclusive:
+            # a watchdog expiry is never a verdict: count it, clean up stray worker processes, go on
+            rec.extra['pool_runs_inconclusive'] = rec.extra.get('pool_runs_inconclusive', 0) + 1
+            rec.case(dict(case, part='pools', inconclusive=True), False, {'pool-inconclusive'})
+            import multiprocessing
+            for ch in multiprocessing.active_children():
+                ch.terminate()
+            return
         W.judge_pool(case, out)
         nt = case['n'] >= 5 and case['workers'] >= 2 and len(set(case['delays'])) > 1 or profile != 'plain'
         cls = {'pool:' + case['backend'], 'pool-api:' + case['api'], 'pool-run'}
